@@ -68,9 +68,9 @@ META['C06'] = dict(
         "CATCH moves iff flag = mode, CROAK drops the code iff flag = mode; dead code terminates or goes to _catch depending on READIN. The precondition of the flag theorems (a well-shaped flag array) is no assumption about the input: a new state has it and Vm.Run keeps it for every program (run_keeps_flagsOk, reachable_flagsOk: a third walk over every instruction handler)."),
   note=_ENG_NOTE)
 META['C07'] = dict(
-  text=("Kernel-checked: restore(snapshot e) reproduces state (minus unexported input/lastMove) and cache exactly; a fresh engine's renderer state is freshPage; every move re-creates exactly that renderer (vmReset_page_fresh) and every resume clears "
-        "mappings, sink, extra, cursors, sink symbol, menu items and error prefix (after three fix: commits). The full simulation persist_equiv is NOT claimed: false after a failed request (witness theorems, known finding) and a menu's browse "
-        "configuration survives a resume without move. Decided otherwise by the check's own two-mode oracle: every long-lived history is re-run per-request on the real engine and all outputs/cont/errors compared."),
+  text=("Kernel-checked: restore(snapshot e) reproduces state (minus unexported input/lastMove) and cache exactly; a fresh engine's renderer state is freshPage; every move re-creates exactly that renderer (vmReset_page_fresh) and, since fix 946bec9, so does every resume after HALT "
+        "(resume_page_fresh: mappings, sink, extra, cursors, sink symbol, error prefix and the whole menu including browse configuration and page count; four fix: commits in all). The full simulation persist_equiv is NOT claimed: false after a failed request (witness theorems, known finding). "
+        "Decided otherwise by the check's own two-mode oracle: every long-lived history is re-run per-request on the real engine and all outputs/cont/errors compared; histories are served in four ways (long-lived, per request with a persister, long-lived with a persister, per request around client-kept state and cache objects)."),
   note=_ENG_NOTE)
 META['C08'] = dict(
   text=("Kernel-checked for ALL programs (also malformed), inputs, fuel: Vm.Run keeps the cache invariant of C09 — accounting matches contents, one scope per symbol, limits (run_keeps_cache_valid, via a relational Hoare logic over every "
@@ -153,3 +153,23 @@ NOT_APPLICABLE = {
 
 
 }
+
+
+# Tie by regeneration (harness/cmd/gotrans + lean/Vise/Tie): appended to the level text of the properties that have one.
+_TIE_TEXT = {
+ 'C01': "render.Sizer.Check and Menu.reset",
+ 'C02': "State.Next/Previous/Sides/Top/Same, Menu.reset, Sizer.Check",
+ 'C03': "State.Previous (IndexError on page 0), Next, Top, Same",
+ 'C04': "State.Next/Previous/Same/Top/Sides",
+ 'C05': "Cache.checkCapacity, Levels",
+ 'C06': "state.IsWriteableFlag, toByteSize",
+ 'C09': "Cache.checkCapacity, Levels",
+ 'C10': "DbBase.Safe, CheckPut, SetLock (defaultLock inlined)",
+ 'C11': "db.ToDbKey, DbBase.ToSessionKey",
+}
+for _p, _t in _TIE_TEXT.items():
+    if _p in META:
+        META[_p]['text'] = META[_p]['text'] + (" Regenerated tie: " + _t + " are translated from the current Go source into Lean on every run (harness/cmd/gotrans) and "
+            "proved equal to the model's definitions (lean/Vise/Tie); a change to one of these functions breaks a named equation.")
+        META[_p]['technique'] = ("Lean 4 theorems about a hand-written executable model; model tied to the Go code by a differential correspondence check, regenerated constants, "
+            "and for its straight-line integer/byte-string functions by Go-to-Lean translation on every run with kernel-checked equality to the model")
